@@ -69,11 +69,28 @@ def _chunk_st(st, side):
 
 
 
-def _geometry(draw, st, side_st, nd_cap=None, max_elems=None):
+def _geometry(draw, st, side_st, nd_cap=None, max_elems=None, boost=None):
     """shape, source chunks, target chunks. Patterns make the interesting classes frequent by construction:
     free (independent draws), transpose (long-thin chunks turned, forces multi-stage plans under tight budgets),
     coprime (chunk sizes sharing no factor, forces irregular intermediates), same-but-one (one axis differs)."""
-    pattern = draw(st.sampled_from(["free", "free", "transpose", "transpose", "coprime", "same-but-one"]))
+    pattern = draw(st.sampled_from(["free", "free", "transpose", "transpose", "coprime", "same-but-one", "staircase"] + ([boost] * 8 if boost else [])))
+    if pattern == "staircase" and (max_elems is None or max_elems >= 20000):
+        # a long axis whose source chunk is an odd multiple k*w of a small target chunk w, turned against a short axis:
+        # multi-stage plans pass through intermediate chunk lengths that divide neither k*w nor each other's neighbours
+        w = draw(st.sampled_from([2, 3, 5, 7]))
+        k = draw(st.sampled_from([5, 7, 9, 11, 13]))
+        c = draw(st.sampled_from([1, 2, 4]))
+        n0 = draw(st.integers(k * w + 1, min(4 * k * w, 260)))
+        n1 = draw(st.sampled_from([60, 100, 128, 200, 400]))
+        if max_elems is not None:
+            while n0 * n1 > 4 * max_elems:
+                n1 //= 2
+        shape, src, tgt = [n0, n1], [k * w, c], [w, n1]
+        if draw(st.booleans()):
+            shape, src, tgt = shape[::-1], src[::-1], tgt[::-1]
+        return shape, src, tgt
+    if pattern == "staircase":
+        pattern = "transpose"
     nd = draw(st.integers(2 if pattern == "transpose" else 1, 3))
     if nd_cap is None:
         shape = [draw(side_st) for _ in range(nd)]
@@ -161,22 +178,25 @@ def planner_cases():
 DTYPES_BY_ITEMSIZE = {1: "int8", 2: "int16", 4: "float32", 8: "float64", 16: "complex128"}
 
 
-def real_cases(max_side=40, max_elems=3000):
+def real_cases(max_side=40, max_elems=3000, boost=None):
     from hypothesis import strategies as st
 
     @st.composite
     def cases(draw):
         nd_cap = {1: max_side, 2: max_side, 3: 12}
-        shape, src, tgt = _geometry(draw, st, None, nd_cap=nd_cap, max_elems=max_elems)
+        shape, src, tgt = _geometry(draw, st, None, nd_cap=nd_cap, max_elems=max_elems, boost=boost)
         itemsize = draw(st.sampled_from(ITEMSIZES))
         base = itemsize * max(prod(src), prod(tgt))
         factor = draw(st.sampled_from([1, 2, 2, 3, 3, 4, 8, 50]))
         slack = draw(st.sampled_from([0, 0, 1, 7, 8, 9, 64]))
         compressor = draw(st.sampled_from(["none", "none", "default"]))
-        allow_irregular = draw(st.booleans())
-        min_mem = draw(st.sampled_from([None, None, 0, 1, "x"]))
+        allow_irregular = draw(st.booleans()) if not boost else draw(st.sampled_from([False, False, True]))
+        min_mem = draw(st.sampled_from([None, None, 0, 1, "x", "big", "big"] if not boost else [None, "big", "big", "big"]))
         if min_mem == "x":
             min_mem = draw(st.integers(0, base * factor))
+        elif min_mem == "big":
+            # a minimum intermediate size close to the budget forces multi-stage plans
+            min_mem = (base * factor) // draw(st.sampled_from([2, 3, 4, 8]))
         return {
             "kind": "real",
             "shape": shape,
